@@ -234,7 +234,9 @@ type Frame struct {
 	lockSnap map[string]string
 	pseudo   bool
 	callSnaps map[string]map[string]string // callee name -> heap right after the latest call
+	callRets  map[string]Val
 	heldAtLoop []string
+	heldAtLoopM map[*ssa.BasicBlock][]string
 	retInstr   ssa.Instruction
 }
 
@@ -252,6 +254,10 @@ func (fr *Frame) clone() *Frame {
 	n.callSnaps = make(map[string]map[string]string, len(fr.callSnaps))
 	for k, v := range fr.callSnaps {
 		n.callSnaps[k] = v
+	}
+	n.callRets = make(map[string]Val, len(fr.callRets))
+	for k, v := range fr.callRets {
+		n.callRets[k] = v
 	}
 	n.cut = make(map[*ssa.BasicBlock]bool, len(fr.cut))
 	for k, v := range fr.cut {
